@@ -182,6 +182,9 @@ def Facts.confOf (f : Facts) (k : Nat) : Option Nat := (f.confs.find? (·.1 == k
     the class height at which it is swept), graduated. -/
 inductive NStage
   | preschool | kinder (cls : Nat) | graduated
+  /-- crib: an outgoing htlc on our (pre-anchor) commitment, filed under its CLTV expiry; the
+      nursery publishes the pre-signed timeout tx at that height -/
+  | crib
   deriving DecidableEq, Repr, Inhabited
 
 /-- the durable arbitrator log. -/
@@ -462,6 +465,10 @@ def resRes (sp : Spec) (f : Facts) (r : RunRes) : ResRes :=
           else .blocked
       | .to =>
         if r.rc.resolved then .blocked
+        -- resolveSecondLevelTxLegacy (pre-anchor channel, our commitment): EVERY (re)launched
+        -- incarnation first hands the htlc to the nursery (`IncubateOutputs`: crib), whatever
+        -- `outputIncubating` says; only then it watches the htlc output
+        else if c.legacy && !r.handed then .incubate
         else match f.spendOf r.key with
         | none => .blocked
         | some .remote => .put (c.msg true) { r.rc with resolved := true } .needDelete
@@ -516,14 +523,18 @@ def resAlt (sp : Spec) (f : Facts) (r : RunRes) : ResRes :=
 def setActive (as : List RunRes) (k : Nat) (r : RunRes) : List RunRes :=
   as.map (fun a => if a.key == k then r else a)
 
+/-- nursery bucket an output enters through `IncubateOutputs`. -/
+def incubStage (k : RKind) : NStage := if k == .to then .crib else .preschool
+
 /-- apply a resolver result. -/
 def resApply (s : Sys) (k : Nat) (r : RunRes) : ResRes → Option Sys
   | .blocked => none
   | .die => some { s with active := setActive s.active k { r with pc := .dead } }
   | .incubate =>
-    -- `Incubate` → `enterPreschool`: ignored when the output already sits in preschool
-    some { s with nursery := if s.nursery.any (fun p => p.1 == k && p.2 == .preschool) then s.nursery
-                             else s.nursery ++ [(k, .preschool)],
+    -- `Incubate` → `enterPreschool` (incoming htlc: success resolver) / `enterCrib` (outgoing htlc:
+    -- timeout resolver): ignored when the output already sits in that bucket
+    some { s with nursery := if s.nursery.any (fun p => p.1 == k && p.2 == incubStage r.rc.kind) then s.nursery
+                             else s.nursery ++ [(k, incubStage r.rc.kind)],
                   active := setActive s.active k { r with handed := true } }
   | .put ms rec pc =>
     some { s with msgs := s.msgs ++ ms,
@@ -570,6 +581,8 @@ def restart (s : Sys) : Sys :=
     * preschool, confirmation (historical or live) at `hc` → `PreschoolToKinder(kid, lastGradHeight)`:
       class `hc + csv`, but a late registration (`hc + csv ≤` the best height the nursery knows,
       which `Start` / every new block set to the chain tip) is filed under `best + 1`;
+    * crib (outgoing htlc, pre-signed timeout tx), confirmation of the timeout tx at `hc` →
+      `CribToKinder`: class `hc + csv`, no late-registration rule;
     * kindergarten, class height reached (live block or replay at start), sweep confirmed →
       `GraduateKinder`;
     * everything graduated → `RemoveChannel`. -/
@@ -581,6 +594,14 @@ def nurseryStep (sp : Spec) (s : Sys) (k : Nat) : Option Sys :=
       -- the preschool entry is deleted, the kindergarten entry (over)written
       some { s with nursery :=
                s.nursery.filter (fun p => !(p.1 == k && p.2 != .graduated)) ++ [(k, .kinder cls)] }
+    | none => none
+  else if s.nursery.any (fun p => p.1 == k && p.2 == .crib) then
+    -- `waitForTimeoutConf` → `CribToKinder`: class `hc + csv` WITHOUT the late-registration rule
+    -- of `PreschoolToKinder`; the crib entry is deleted, the kindergarten entry (over)written
+    match s.facts.confOf k with
+    | some hc =>
+      some { s with nursery :=
+               s.nursery.filter (fun p => !(p.1 == k && p.2 != .graduated)) ++ [(k, .kinder (hc + sp.csv))] }
     | none => none
   else
     match s.nursery.find? (fun p => p.1 == k && p.2 != .graduated) with
